@@ -43,7 +43,7 @@ def judgeSubs (cfg : Cfg) (p : Nat) : List IEv → Option String
   | e :: es =>
     if e.fin then judgeSubs cfg p es
     else
-      match subOfLabel cfg e.label with
+      match subOfLabel cfg e.pick with
       | none => some "unknown-backend"
       | some (i, sc) =>
         if sc.black then some "blackhole-attempt"
@@ -64,7 +64,7 @@ def judgeInv (sc : Scenario) (s : IStep) : Option String :=
     else if nrt > 20 then some "over-20"
     else
       let p := primary sc.cfg
-      let nprim : Nat := (s.evs.filter fun e => !e.fin && ((subOfLabel sc.cfg e.label).map (·.1) == some p)).length
+      let nprim : Nat := (s.evs.filter fun e => !e.fin && ((subOfLabel sc.cfg e.pick).map (·.1) == some p)).length
       if (nprim : Int) > max 0 (1 + sc.cfg.rm) then some "cross-stays-in-primary"
       else judgeSubs sc.cfg p s.evs
 
@@ -77,7 +77,7 @@ def specVerdict (sc : Scenario) (impl : String) : String :=
     | some c => "FAIL:" ++ c
 
 def rtTag : Rt → String
-  | .ok _ => "resp" | .connect => "connect" | .write => "write" | .rhdr => "rhdr"
+  | .ok _ => "resp" | .connect => "connect" | .write => "write" | .writeT => "write" | .rhdr => "rhdr"
   | .timeout => "timeout" | .broken => "broken" | .other => "other"
 
 def tagsOf (sc : Scenario) (steps : List IStep) (nd : Bool) : List String :=
@@ -90,7 +90,7 @@ def tagsOf (sc : Scenario) (steps : List IStep) (nd : Bool) : List String :=
     let first := rtTag (rq.script.getD 0 Attempt.dflt).rt
     let lastIdx := s.evs.length - 1
     let lastO := (rq.script.getD lastIdx Attempt.dflt).rt
-    let crossed := s.evs.any fun e => !e.fin && ((subOfLabel sc.cfg e.label).map (·.1) != some p)
+    let crossed := s.evs.any fun e => !e.fin && ((subOfLabel sc.cfg e.pick).map (·.1) != some p)
     (if retried then ["nt", "retried"] else []) ++
     (if retried && rq.isGET && rq.noBody && sc.cfg.rl == 1 then ["get-rule"] else []) ++
     (if !retried && nrt == 1 && Rt.failed lastO && lastO != .connect then ["refused-" ++ rtTag lastO] else []) ++
@@ -99,7 +99,9 @@ def tagsOf (sc : Scenario) (steps : List IStep) (nd : Bool) : List String :=
     (if crossed then ["cross"] else []) ++
     (if s.evs.any (·.fin) then ["fwd-finish"] else []) ++
     (if nrt == 0 then ["no-attempt"] else ["first-" ++ first])
-  (per.flatten.eraseDups) ++ (if nd then ["nd"] else [])
+  (per.flatten.eraseDups) ++ (if nd then ["nd"] else []) ++
+  (if sc.cfg.mode == 1 then ["wlc"] else if sc.cfg.mode == 2 then ["sticky"] else ["wrr"]) ++
+  (if sc.cfg.failNum > 0 then ["health"] else [])
 
 def run (op impl : String) : Ans :=
   match parseOp op with
